@@ -838,9 +838,9 @@ func init() {
 		Spaces: func(tier string) []*core.Space {
 			quick := []c04Ctx{ctxTop, ctxNested, ctxPtrStruct, ctxSliceElem, ctxArrayElem, ctxMapVal, ctxMapPtrVal, ctxInline, ctxInlineNested, ctxInlineInSlice, ctxSliceAppend, ctxSlicePrepend}
 			if tier == "thorough" {
-				return []*core.Space{c04Catalogue(), c04TagSequences(), c04Space("generated-types", append(quick, ctxNestedInSlice, ctxMapOfSlices))}
+				return []*core.Space{c04Catalogue(), c04Validating(), c04TagSequences(), c04Space("generated-types", append(quick, ctxNestedInSlice, ctxMapOfSlices))}
 			}
-			return []*core.Space{c04Catalogue(), c04TagSequences(), c04Space("generated-types", quick)}
+			return []*core.Space{c04Catalogue(), c04Validating(), c04TagSequences(), c04Space("generated-types", quick)}
 		},
 	})
 }
